@@ -30,7 +30,7 @@ CASE_TIMEOUT = 30
 RULE = (
     "sampled product over set/unset time, grid, units, mask, two extra meta keys on producer and consumers x grid "
     "kinds (NoGrid with dims/shapes, uniform/rectilinear layouts compatible-but-different vs incompatible, points vs "
-    "cells incl. an unstructured mesh with as many cells as nodes (equal data shape, only the location differs), 1-d, unstructured) x unit pairs (equal, convertible, incompatible, unset) x mask kinds (FLEX, NONE, nomask, "
+    "cells, identical numbers in different coordinate reference systems (custom without EPSG code, registered, none), an unstructured mesh with as many cells as nodes (equal data shape, only the location differs), 1-d, unstructured) x unit pairs (equal, convertible, incompatible, unset) x mask kinds (FLEX, NONE, nomask, "
     "unset, explicit equal / equal-after-layout / different / all-false / wrong shape; also ONE array object shared by "
     "both ends on equal / different layouts, symmetric or not under the layout change) x fan-out 1-3 in every consumer "
     "order x adapter chains of length 0-2 from Scale, AvgOverTime, SumOverTime(per_time or not), RegridNearest(in/out "
@@ -50,7 +50,8 @@ TRUSTED = [
     "SumOverTime: pint's (units*s).to_reduced_units() enters the model as a finite table (oracle)",
 ]
 ASSUMPTIONS = [
-    "CRS is None everywhere (the CRS checks of the regridding adapter are not modelled)",
+    "the CRS is part of a grid's geometry id (grids whose CRS values differ are different geometries, as finam's == on the "
+    "stored CRS value decides); grids with a CRS never meet a regridding adapter (its CRS checks / transformer are not modelled)",
     "one output, fan-out at the output only (an adapter has exactly one target)",
     "explicit masks are 1-d or 2-d",
     "the first failing exchange aborts (as connect() does); partially filled producer info after a failure is not observed",
@@ -60,6 +61,14 @@ ASSUMPTIONS = [
 # catalogues (hand-written, independent of finam's compatible_with / pint)
 # ----------------------------------------------------------------------------------------------
 _TRI = None
+
+
+# coordinate reference systems: two project-specific (regional LAEA, no EPSG code) and two registered ones.
+# The CRS is part of a grid's geometry: the same numbers in another CRS are other places on the globe.
+_LAEA_A = "+proj=laea +lat_0=46 +lon_0=10 +x_0=0 +y_0=0 +ellps=GRS80 +units=m +no_defs"
+_LAEA_B = "+proj=laea +lat_0=58 +lon_0=20 +x_0=0 +y_0=0 +ellps=GRS80 +units=m +no_defs"
+CRS_OF = {"U43A": _LAEA_A, "U43Af": _LAEA_A, "U43B": _LAEA_B, "U43E": "EPSG:32632", "U43E2": "EPSG:32633",
+          "T43A": _LAEA_A, "T43B": _LAEA_B}
 
 
 def _grid_ctor(name):
@@ -86,6 +95,10 @@ def _grid_ctor(name):
         return UG((5, 3))
     if name == "U43s":
         return UG((4, 3), origin=(10.0, 10.0))
+    if name in CRS_OF and name.startswith("U43"):
+        if name == "U43Af":
+            return UG((4, 3), axes_increase=[True, False], crs=CRS_OF[name])
+        return UG((4, 3), crs=CRS_OF[name])
     if name == "U4":
         return UG((4,))
     if name == "U4f":
@@ -96,7 +109,7 @@ def _grid_ctor(name):
     if name == "X2":
         return fm.UnstructuredGrid(points=[[0, 0], [2, 0], [0, 2], [2, 2]], cells=[[0, 1, 2], [1, 3, 2]],
                                    cell_types=[fm.CellType.TRI] * 2)
-    if name in ("T43c", "T43p"):
+    if name in ("T43c", "T43p", "T43A", "T43B"):
         # 4x3 nodes, every quad split into two triangles: 12 nodes AND 12 cells, so data on cells and data on
         # nodes have the same shape; only the data location tells the two grids apart
         nx, ny = 4, 3
@@ -107,7 +120,8 @@ def _grid_ctor(name):
                 a, b, c, d = i * ny + j, (i + 1) * ny + j, (i + 1) * ny + j + 1, i * ny + j + 1
                 cells += [[a, b, c], [a, c, d]]
         return fm.UnstructuredGrid(points=pts, cells=cells, cell_types=[fm.CellType.TRI] * len(cells),
-                                   data_location=fm.Location.CELLS if name == "T43c" else fm.Location.POINTS)
+                                   data_location=fm.Location.POINTS if name == "T43p" else fm.Location.CELLS,
+                                   **({"crs": CRS_OF[name]} if name in CRS_OF else {}))
     if name == "Xp":
         return fm.UnstructuredGrid(points=[[0, 0], [1, 0], [0, 1], [1, 1]], cells=[[0, 1, 2], [1, 3, 2]],
                                    cell_types=[fm.CellType.TRI] * 2, data_location=fm.Location.POINTS)
@@ -130,6 +144,13 @@ GSPEC = {
     "U43p": _g(1, 10, 1, 2, False, [True, True], [4, 3]),
     "U53": _g(1, 11, 0, 2, False, [True, True], [4, 2]),
     "U43s": _g(1, 13, 0, 2, False, [True, True], [3, 2]),
+    "U43A": _g(1, 14, 0, 2, False, [True, True], [3, 2]),
+    "U43Af": _g(1, 14, 0, 2, False, [True, False], [3, 2]),
+    "U43B": _g(1, 15, 0, 2, False, [True, True], [3, 2]),
+    "U43E": _g(1, 16, 0, 2, False, [True, True], [3, 2]),
+    "U43E2": _g(1, 17, 0, 2, False, [True, True], [3, 2]),
+    "T43A": _g(2, 23, 0, 2, False, [], [12]),
+    "T43B": _g(2, 24, 0, 2, False, [], [12]),
     "U4": _g(1, 12, 0, 1, False, [True], [3]),
     "U4f": _g(1, 12, 0, 1, False, [False], [3]),
     "X": _g(2, 20, 0, 2, False, [], [2]),
@@ -139,6 +160,10 @@ GSPEC = {
     "T43p": _g(2, 22, 1, 2, False, [], [12]),
 }
 # pairs that describe the same mesh and differ ONLY in the data location (T43: even the data shape is equal)
+# pairs with identical geometry numbers that differ ONLY in the CRS (incl. CRS on one end, none on the other)
+CRS_PAIRS = [(a, b) for a in ("U43", "U43A", "U43B", "U43E", "U43E2") for b in ("U43", "U43A", "U43B", "U43E", "U43E2") if a != b] + [
+    ("T43c", "T43A"), ("T43A", "T43c"), ("T43A", "T43B"), ("T43B", "T43A")]
+CRS_SAME = [("U43A", "U43A"), ("U43A", "U43Af"), ("U43Af", "U43A"), ("U43E", "U43E"), ("T43B", "T43B")]
 LOCATION_PAIRS = [("T43c", "T43p"), ("T43p", "T43c"), ("X", "Xp"), ("Xp", "X"), ("U43", "U43p"), ("U43p", "U43")]
 REAL_GRIDS = ["U43", "U43f", "U43r", "U43rf", "R43", "U43p", "U53", "U4", "U4f", "X", "X2", "Xp", "T43c", "T43p", "U43s"]  # have .crs
 SAME_GEOM = {
@@ -148,6 +173,10 @@ SAME_GEOM = {
     # same mesh; the second entry has another data location (a conflict), drawn now and then
     "T43c": ["T43c", "T43c", "T43c", "T43p"], "T43p": ["T43p", "T43p", "T43p", "T43c"],
     "X": ["X", "X", "X", "Xp"], "Xp": ["Xp", "Xp", "Xp", "X"],
+    # same numbers; the last entries lie in another CRS (a conflict), drawn now and then
+    "U43A": ["U43A", "U43Af", "U43A", "U43Af", "U43B", "U43"], "U43Af": ["U43A", "U43Af", "U43A", "U43B"],
+    "U43B": ["U43B", "U43B", "U43B", "U43A"], "U43E": ["U43E", "U43E", "U43E", "U43E2"], "U43E2": ["U43E2", "U43E2", "U43E"],
+    "T43A": ["T43A", "T43A", "T43A", "T43B", "T43c"], "T43B": ["T43B", "T43B", "T43A"],
 }
 
 # units: name -> ([length, time] exponents, factor to base units)
@@ -169,7 +198,7 @@ def _geom_key(g):
         return ("N", tuple(int(x) for x in g.data_shape))
     if isinstance(g, StructuredGrid):
         return ("S", int(g.dim), str(g.crs), tuple(tuple(Fraction(float(x)) for x in ax) for ax in g.axes))
-    return ("X", str(g.order), np.asarray(g.points, dtype=float).tobytes(), np.asarray(g.cells).tobytes(),
+    return ("X", str(g.order), str(g.crs), np.asarray(g.points, dtype=float).tobytes(), np.asarray(g.cells).tobytes(),
             np.asarray(g.cell_types).tobytes())
 
 
@@ -1325,6 +1354,11 @@ CORPUS = [
              [(_I(grid="U43f", mask=[[True, False], [False, False], [False, True]]), [])]), "share_masks": True},
     {**_case(_I(mask=[[True, True], [False, False], [False, False]]),
              [(_I(grid="U43f", mask=[[True, True], [False, False], [False, False]]), [])], mode="comp"), "share_masks": True},
+    # seeded m: same axes, two project-specific CRS without EPSG code / CRS on one end only: other places, refused
+    _case(_I(grid="U43A"), [(_I(grid="U43B"), [])], mode="comp"),
+    _case(_I(grid="T43A"), [(_I(grid="T43B"), [["scale"]])]),
+    _case(_I(grid="U43"), [(_I(grid="U43A"), [])]),
+    _case(_I(grid="U43A"), [(_I(grid="U43Af"), []), (_I(grid=None), [])], mode="comp", prod_pos=2),
     # producer info never pushed
     _case(None, [(_I(), [])]),
 ]
@@ -1436,6 +1470,16 @@ def generate(rng, tier):
                     cases.append(_case(o, [(c, [["scale"]] if k % 2 else [])]))
     # systematic part: grids of one mesh that differ only in the data location, both directions, direct / behind
     # an adapter / with a second (compatible) consumer in both orders, bare objects and Composition.connect()
+    # systematic part: identical geometry numbers, different coordinate reference systems (custom without EPSG
+    # code / registered / none): other places on the globe, must be refused; same CRS (any layout) must connect
+    for (a, b) in CRS_PAIRS + CRS_SAME:
+        for chain in ([], [["scale"]]):
+            for mode in ("bare", "comp"):
+                cases.append(_case(_I(grid=a), [(_I(grid=b), chain)], mode=mode, prod_pos=len(chain)))
+        cases.append(_case(_I(grid=a), [(_I(grid=a), []), (_I(grid=b), [["avg"]])], order=[1, 0] if len(a) % 2 else [0, 1]))
+        cases.append(_case(_I(grid=None), [(_I(grid=a), []), (_I(grid=b), [])]))
+        for down in (False, True):
+            cases.append({"mode": "accepts", "self": _I(grid=a), "inc": _I(grid=b), "down": down})
     for (a, b) in LOCATION_PAIRS:
         for chain in ([], [["scale"]], [["avg"]], [["sum", False]]):
             for mode in ("bare", "comp"):
